@@ -55,7 +55,7 @@ def run(chk, replay=None):
     # synthetic four-body cascade / two-resonance single-topology reactions
     n4 = 0
     while n4 < (4 if tier == "thorough" else 1):
-        spec = U.synth_spec(rng, nfs=4, formalism="helicity", helset="full", maxspin2=2)
+        spec = U.synth_spec(rng, nfs=4, formalism="helicity", helset="full", maxspin2=2, ntop=1)
         if spec is None or len(spec["transitions"]) > 20:
             continue
         cases.append((("synth", spec), ["none"]))
